@@ -44,3 +44,176 @@ def sched_binary(o, race=False):
         o.violation("harness reg (sched) does not build against the tree under test: %s" % out[-1500:],
                     {"kind": "build", "output": out[-4000:]}, no_input=True)
     return b
+
+
+def _run_bin(b, env, timeout=3000):
+    e = dict(core.GOENV)
+    e.update({k: str(v) for k, v in env.items()})
+    work = os.path.join(W, "work")
+    os.makedirs(work, exist_ok=True)
+    e["VERIF_WORK"] = work
+    p = core.sh([b], env=e, check=False, timeout=timeout)
+    return p.returncode == 0, p.stdout
+
+
+PUT_RW = "RepoGet,BlobGet,BlobCreate,Lock,IndexInsert,IndexGet,BlobCreate,IndexInsert"
+DEL_RW = "RepoGet,Lock,IndexGet,BlobGet,IndexGet,BlobGet,BlobCreate,IndexInsert,IndexRemove"
+
+
+def lock_discipline(b):
+    """which handler-level lock discipline does the tree under test have?  The harness runs an artifact push and a
+    delete by digest alone and prints their store-action traces: no Lock -> 'none' (the model of the tree before the
+    repair, on which the lost update is a theorem); Lock where Server.indexMu is taken -> 'rw' (the model the
+    linearizability theorems are about).  Anything else is reported: the model does not know it."""
+    d = os.path.join(W, "probe_%d" % os.getpid())
+    os.makedirs(d, exist_ok=True)
+    ok, out = _run_bin(b, {"VERIF_MODE": "conc", "VERIF_CONC": "probe", "VERIF_OPS": os.path.join(d, "ops"),
+                           "VERIF_IMPL": os.path.join(d, "impl"), "VERIF_MON": os.path.join(d, "mon")})
+    line = (core.read_lines(os.path.join(d, "impl")) or [""])[-1]
+    shutil.rmtree(d, ignore_errors=True)
+    m = re.search(r"T1:([A-Za-z,]*);([A-Za-z,]*);", line)
+    if not ok or not m:
+        return None, line or out[-400:]
+    put, dele = m.group(1), m.group(2)
+    if "Lock" not in put and "Lock" not in dele:
+        return "none", line
+    if put == PUT_RW and dele == DEL_RW:
+        return "rw", line
+    return "other", line
+
+
+def conc_profile(o, race=False):
+    b = sched_binary(o, race)
+    if b is None or not Built.driver(o, "concdriver"):
+        return None
+    key = ("disc", race)
+    if key not in Built.cache:
+        Built.cache[key] = lock_discipline(b)
+    disc, probe = Built.cache[key]
+    if disc is None:
+        o.violation("the scheduler probe failed: %s" % probe, {"kind": "machinery", "output": probe}, no_input=True)
+        return None
+    o.notes["lock_discipline"] = {"detected": disc, "probe": probe}
+    if disc == "other":
+        o.violation("the tree under test takes a handler-level lock in a place the model does not know: %s" % probe,
+                    {"kind": "obligation", "detail": "lock discipline of the tree is neither none nor rw (Conc.Disc)", "probe": probe}, no_input=True)
+        disc = "rw"
+
+    def run(env):
+        env = dict(env)
+        if env.get("VERIF_MODE") == "replay":
+            env["VERIF_MODE"] = "concreplay"
+        ok, out = _run_bin(b, env)
+        conc_profile.last_output = out
+        return ok, out
+    return Profile("conc", run, "concdriver", driver_args=(disc,))
+
+
+conc_profile.last_output = ""
+
+
+class C11Monitors:
+    def __contains__(self, name):
+        return name.startswith("C11.")
+
+
+def keep_line(l):
+    return l.startswith("NEW") or l.startswith("DEF")
+
+
+def nontrivial(op, ans):
+    k = op.split(" ", 1)[0]
+    return k not in ("NEW", "DEF", "PAR") and ans != "queued"
+
+
+def _stats(out):
+    m = re.search(r"CONCSTATS (\{.*\})", out or "")
+    return json.loads(m.group(1)) if m else {}
+
+
+RULE = ("concurrent histories: a sequential setup, then 2-4 threads of requests (manifest pushes by tag and digest, tag moves, deletes by tag and "
+        "digest, artifacts with a shared subject pushed and deleted, tag listings, manifest and referrers GETs, blob upload and delete, collection) "
+        "run on the real Server.ServeHTTP with every store action (RepoGet, IndexGet, IndexInsert, IndexRemove, BlobGet, BlobCreate, BlobDelete, "
+        "taking Server.indexMu) gated by a controller that lets exactly one request goroutine advance per schedule entry; for the curated cases "
+        "ALL schedules are enumerated (depth-first over the enabled sets, up to a bound per case), random cases get random schedules; the same "
+        "schedule is executed by Conc.exec (lean/Conc, driver concdriver); compared line by line: the executed schedule and the store-action "
+        "trace of every request, every answer, the quiescent observation (tags, every tag and manifest, referrers of every subject), and the set "
+        "of sequential orders consistent with the real-time order that explain answers and observation (implementation: the requests re-run one at "
+        "a time on a fresh server; model: Upd.step).  Statement monitors on the implementation: C11.not-linearizable (no order), C11.torn-read, "
+        "C11.lost-referrer, C11.lost-tag, C11.tag-never-pushed, C11.lost-manifest, C11.deadlock.  Then free-running stress (real goroutines, no "
+        "parking) with the same monitors at quiescence. distinct_nontrivial = distinct (line, answer) pairs; a history = one case under one schedule")
+
+
+def forced(o, prof, store, profile, n, cap, label):
+    params = {"VERIF_SEED": o.seed, "VERIF_N": n, "VERIF_PROFILE": profile, "VERIF_STORE": store, "VERIF_CAP": cap}
+    res = check_profile(o, prof, "conc", params, label, C11Monitors(), nontrivial=nontrivial, keep=keep_line)
+    st = _stats(conc_profile.last_output)
+    o.notes.setdefault("schedules", {})[label] = st
+    tot = o.notes.setdefault("totals", {"cases": 0, "histories": 0, "exhaustive_cases": 0, "capped_cases": 0, "not_linearizable": 0,
+                                        "lin_sequential_runs": 0})
+    for k in tot:
+        tot[k] += st.get(k, 0)
+    return res
+
+
+def stress(o, race, store, rounds, label):
+    b = sched_binary(o, race)
+    if b is None:
+        return
+    d = os.path.join(W, "stress_%s_%d" % (label, os.getpid()))
+    os.makedirs(d, exist_ok=True)
+    env = {"VERIF_MODE": "conc", "VERIF_CONC": "stress", "VERIF_SEED": o.seed, "VERIF_N": rounds, "VERIF_STORE": store,
+           "VERIF_OPS": os.path.join(d, "ops"), "VERIF_IMPL": os.path.join(d, "impl"), "VERIF_MON": os.path.join(d, "mon")}
+    ok, out = _run_bin(b, env)
+    st = _stats(out)
+    mon = mon_parse(core.read_lines(os.path.join(d, "mon"))) if os.path.exists(os.path.join(d, "mon")) else []
+    shutil.rmtree(d, ignore_errors=True)
+    o.notes.setdefault("stress", {})[label] = st
+    o.cov["evaluations"] += st.get("rounds", 0)
+    races = "DATA RACE" in out
+    if not ok or races:
+        o.violation("free-running stress (%s) failed%s: %s" % (label, " with a data race report" if races else "", out[-1500:]),
+                    {"kind": "stress", "label": label, "output": out[-6000:]}, no_input=not races)
+        return
+    hits = [m for m in mon if m[1].startswith("C11.")]
+    if hits:
+        names = sorted(set(m[1] for m in hits))
+        cases = re.findall(r"STRESSCASE (.*)", out)
+        o.violation("free-running stress (%s, %d rounds): %s; first: %s" % (label, st.get("rounds", 0), ", ".join(names), hits[0][2][:300]),
+                    {"kind": "stress", "label": label, "monitors": ["MON %d %s %s" % m for m in hits[:10]], "cases": cases[:3], "env": {k: str(v) for k, v in env.items()},
+                     "note": "not deterministic: re-run the harness with this environment; the forced-schedule part gives the deterministic replay"})
+
+
+def check_C11(o, tier):
+    o.add_audit(core.audit("C11", tier == "thorough"))
+    o.cov["rule"] = RULE
+    prof = conc_profile(o)
+    if prof is None:
+        return
+    check_corpus(o, prof, "C11", C11Monitors())
+    thorough = tier == "thorough"
+    # all schedules of the curated cases (bounded per case), both stores
+    forced(o, prof, "mem", "curated", 0, 4000 if thorough else 120, "conc-curated-mem")
+    forced(o, prof, "dir", "curated", 0, 400 if thorough else 12, "conc-curated-dir")
+    # random cases, random schedules
+    forced(o, prof, "mem", "random", 12000 if thorough else 1500, 60, "conc-random-mem")
+    forced(o, prof, "dir", "random", 1500 if thorough else 150, 60, "conc-random-dir")
+    prof.cleanup()
+    # free running
+    stress(o, False, "mem", 3000 if thorough else 150, "stress-mem")
+    stress(o, False, "dir", 300 if thorough else 25, "stress-dir")
+    if thorough:
+        stress(o, True, "mem", 1500, "stress-mem-race")
+        stress(o, True, "dir", 150, "stress-dir-race")
+        rp = conc_profile(o, race=True)
+        if rp is not None:
+            forced(o, rp, "mem", "curated", 0, 150, "conc-curated-mem-race")
+            rp.cleanup()
+    t = o.notes.get("totals", {})
+    o.notes["summary"] = ("%d cases, %d forced schedules (= distinct interleavings), %d cases enumerated completely, %d capped; "
+                          "%d not explained by any sequential order" % (t.get("cases", 0), t.get("histories", 0), t.get("exhaustive_cases", 0),
+                                                                      t.get("capped_cases", 0), t.get("not_linearizable", 0)))
+
+
+CHECKS = {"C11": check_C11}
+PROFILES = {"conc": conc_profile}
